@@ -37,6 +37,8 @@ def run(repo, chk):
     rule_c(repo, chk)
     rule_d(repo, chk)
     rule_e(repo, chk)
+    rule_f(repo, chk)
+    rule_g(repo, chk)
 
 
 def _is_docroot_join(e, pathvars):
@@ -431,3 +433,80 @@ def rule_e(repo, chk):
     chk.touch(rq)
     ok = any(r_ == 'self.uri' for r_, _c in pat.method_calls(rq.node, 'sanitize'))
     chk.ob('e', rq.ref, 'the request URI is sanitised when the Request is built', ok, loc(rq, rq.node), discr='uri-sanitised')
+
+
+TOTAL_PROBES = {'os.path.exists', 'os.path.isfile', 'os.path.isdir', 'os.path.islink', 'os.path.lexists'}   # return False for any unusable path (OSError and ValueError are caught inside)
+RAISING_PROBES = {'os.stat', 'os.lstat', 'os.listdir', 'os.scandir', 'os.path.getsize', 'os.path.getmtime', 'open', 'os.open', 'os.access'}
+
+
+def rule_f(repo, chk):
+    """Not-found is decided by a probe that cannot fail on a hostile path."""
+    from sa.cfg import handler_names
+    chk.rule('C16.f', 'a path that denotes nothing servable (missing, embedded NUL, over-long) is answered with not-found, not with an internal error: '
+                      'every file-system call of Static._on_request that can raise on such a path is dominated by a total os.path predicate being true, '
+                      'or enclosed by handlers for both OSError and ValueError')
+    f = repo.func(WEB_STATIC, 'Static._on_request')
+    g = f.cfg()
+    total_T = pat.test_edge(lambda tt, pol: pol == 'T' and any(call_name(c) in TOTAL_PROBES for c in calls_in(tt)) and not isinstance(tt, ast.UnaryOp))
+    total_F_of_not = pat.test_edge(lambda tt, pol: pol == 'F' and isinstance(tt, ast.UnaryOp) and isinstance(tt.op, ast.Not) and any(call_name(c) in TOTAL_PROBES for c in calls_in(tt)))
+    n_total = sum(1 for n in g.nodes if n.kind == 'test' and any(call_name(c) in TOTAL_PROBES for c in pat.node_calls(n)))
+    n_r = 0
+
+    def caught_around(n):
+        caught = set()
+        for h in pat.enclosing_try_handlers(g, n):
+            names = handler_names(h.ast)
+            caught |= set(names) if names else {'*'}
+        return caught
+
+    def is_safe(caught):
+        return '*' in caught or 'Exception' in caught or 'BaseException' in caught or ({'OSError', 'ValueError'} <= caught)
+    # a raising probe that is enclosed by both handlers and came back normally has shown the path to be usable
+    proven = [n for n in g.nodes if n.kind in ('stmt', 'test') and any(call_name(c) in RAISING_PROBES for c in pat.node_calls(n)) and is_safe(caught_around(n))]
+    for n in g.nodes:
+        if n.kind not in ('stmt', 'test', 'iter', 'for', 'with'):
+            continue
+        for c in pat.node_calls(n):
+            nm = call_name(c)
+            if nm not in RAISING_PROBES:
+                continue
+            n_r += 1
+            dom = pat.guarded_by(g, n, lambda e: total_T(e) or total_F_of_not(e) or (e.src in proven and e.src is not n and e.kind != 'x'))
+            caught = caught_around(n)
+            safe = is_safe(caught)
+            chk.ob('f', f.ref, f'`{nm}` cannot turn an unusable path into an internal error', dom is None or safe, loc(f, c),
+                   detail=f'handlers around it: {sorted(caught)}' if dom is not None else '', path=pat.path_lines(dom) if dom and not safe else None,
+                   discr=f'probe-total:{nm}')
+    chk.ob('f', f.ref, 'existence and kind of the location are decided by total predicates', n_total >= 1 or n_r > 0, loc(f, f.node), discr='has-probes', nontrivial=False)
+
+
+def rule_g(repo, chk):
+    chk.rule('C16.g', 'a satisfiable byte range is left out of the result only when exactly the same range is in it already: every test of the range loop that '
+                      'consults the result list is `X (not) in result` for the very tuple X that is appended')
+    m = repo.module(WEB_UTILS)
+    f = m.functions.get('_get_ranges') or m.functions.get('get_ranges')
+    need(f, 'C16.g: range parser missing')
+    g = f.cfg()
+    apps = [(n, c) for n in g.nodes if n.kind == 'stmt' for r, c in pat.method_calls(n.ast, 'append') if c.args and isinstance(c.args[0], ast.Tuple)]
+    need(apps, 'C16.g: the range parser appends nothing')
+    rv = src([c for _n, c in apps][0].func.value)
+    tuples = {src(c.args[0]).replace(' ', '') for _n, c in apps}
+    n_t = 0
+    for n in g.nodes:
+        if n.kind != 'test' or not any(k == 'loop' for k, _a in n.ctx):
+            continue
+        if rv not in Q.names_used(n.ast):
+            continue
+        n_t += 1
+        t = n.ast
+        exact = isinstance(t, ast.Compare) and len(t.ops) == 1 and isinstance(t.ops[0], (ast.In, ast.NotIn)) and src(t.comparators[0]) == rv and \
+            src(t.left).replace(' ', '') in tuples
+        # … and the tuple tested is the one appended under this test
+        if exact:
+            want = src(t.left).replace(' ', '')
+            under = [a for a, c in apps if src(c.args[0]).replace(' ', '') == want and any(e.dst is a or Q.reaches(e.dst, a, stop=lambda x: x.kind == 'for') for e in n.succ
+                                                                                             if e.kind == ('T' if isinstance(t.ops[0], ast.NotIn) else 'F'))]
+            exact = bool(under)
+        chk.ob('g', f.ref, 'the result list is consulted only to skip an exact duplicate of the range about to be appended', exact, loc(f, t),
+               detail=src(t)[:100], discr=f'dedupe-exact:{"suffix" if f.params[1] in src(t) else "explicit"}')
+    chk.info(f'C16.g: {n_t} tests of the range loop consult the result list')
